@@ -340,6 +340,19 @@ class PathExec:
                         taken = ("eq", vals[0])
                     elif vals:
                         taken = ("in", tuple(vals))
+                # two tests of the same (opaque) value on one path must agree: `match r { Err(e) if .. => .., r => r }`
+                # followed by a second `match` on the value handed on
+                if taken is not None and isinstance(d, tuple) and d[0] == "discr":
+                    for ev in st.events:
+                        if ev[0] == "branch" and ev[2][0] == d and ev[2][1] is not None:
+                            t0 = ev[2][1]
+                            allowed0 = (lambda v: v == t0[1]) if t0[0] == "eq" else (lambda v: v in t0[1]) if t0[0] == "in" else (lambda v: v not in t0[1])
+                            if taken[0] == "eq" and not allowed0(taken[1]):
+                                st.infeasible = True
+                            elif taken[0] == "in" and not any(allowed0(v) for v in taken[1]):
+                                st.infeasible = True
+                            elif taken[0] == "notin" and t0[0] == "eq" and t0[1] in taken[1]:
+                                st.infeasible = True
                 st.events.append(("branch", bb, (d, taken)))
                 # `x = if c { Some(v) } else { None }; if let Some(v) = x`: a path through the None assignment cannot
                 # take the Some edge
